@@ -406,3 +406,60 @@ func (j *judge) reEq(where string, resp, re interface{}) {
 		}
 	}
 }
+
+// scalarCounts: how many non-null values of each custom scalar type the response carries
+// (the user's unmarshaler / marshaler for that scalar must run for each of them).
+func (j *judge) scalarCounts(obj *OObj, sels ast.SelectionSet, concrete string, out map[string]int, depth int) {
+	if depth > 14 {
+		return
+	}
+	g := j.respGenFor()
+	into := map[string][]*ast.Field{}
+	var order []string
+	g.collect(sels, concrete, &order, into, map[string]bool{})
+	var walk func(v interface{}, t *ast.Type, sub ast.SelectionSet, d int)
+	walk = func(v interface{}, t *ast.Type, sub ast.SelectionSet, d int) {
+		if v == nil || d > 14 {
+			return
+		}
+		if arr, ok := v.([]interface{}); ok {
+			et := t
+			if t.Elem != nil {
+				et = t.Elem
+			}
+			for _, e := range arr {
+				walk(e, et, sub, d+1)
+			}
+			return
+		}
+		def := j.schema.Types[t.Name()]
+		if def == nil {
+			return
+		}
+		if def.Kind == ast.Scalar {
+			if !def.BuiltIn {
+				out[def.Name]++
+			}
+			return
+		}
+		if o, ok := v.(*OObj); ok {
+			c := t.Name()
+			if tn, ok := o.Vals["__typename"].(string); ok {
+				c = tn
+			}
+			j.scalarCounts(o, sub, c, out, d+1)
+		}
+	}
+	for _, k := range order {
+		v, present := obj.Vals[k]
+		f0 := into[k][0]
+		if !present || f0.Definition == nil || f0.Name == "__typename" {
+			continue
+		}
+		var sub ast.SelectionSet
+		for _, x := range into[k] {
+			sub = append(sub, x.SelectionSet...)
+		}
+		walk(v, f0.Definition.Type, sub, depth+1)
+	}
+}
